@@ -124,6 +124,7 @@ type FnCtx struct {
 	escaped map[string]bool
 	tainted map[string]bool
 	usedCallAssert map[string]bool
+	missingCall string // set when a clause asks for the result of a call site that does not exist
 	iters map[*ssa.Range]*iterInfo
 	specLoop *loopInfo // the loop whose contract is being evaluated (for iterated())
 	axiomDone map[string]bool
@@ -1400,8 +1401,8 @@ func (fc *FnCtx) assumeTypeInvs(st *State) {
 	}
 }
 
-// immutableFreeVar: the captured variable is stored exactly once (its
-// initialisation in the enclosing function) and never through this closure.
+// immutableFreeVar: the captured variable is never stored through this closure
+// and, in the enclosing function, only before the closure is made.
 func immutableFreeVar(fv *ssa.FreeVar) bool {
 	if refs := fv.Referrers(); refs != nil {
 		for _, r := range *refs {
@@ -1432,22 +1433,49 @@ func immutableFreeVar(fv *ssa.FreeVar) bool {
 			if !isAlloc {
 				return false
 			}
-			stores := 0
+			// every store to the variable happens before the closure is made (no path leads
+			// from the MakeClosure back to a store), and its address goes nowhere else
+			after := map[*ssa.BasicBlock]bool{}
+			var work []*ssa.BasicBlock
+			work = append(work, mc.Block().Succs...)
+			for len(work) > 0 {
+				x := work[len(work)-1]
+				work = work[:len(work)-1]
+				if after[x] {
+					continue
+				}
+				after[x] = true
+				work = append(work, x.Succs...)
+			}
+			pos := func(in ssa.Instruction) int {
+				for i, y := range in.Block().Instrs {
+					if y == in {
+						return i
+					}
+				}
+				return -1
+			}
+			good := true
 			if refs := al.Referrers(); refs != nil {
 				for _, r := range *refs {
 					switch x := r.(type) {
 					case *ssa.Store:
-						if x.Addr == al {
-							stores++
+						if x.Addr != al {
+							good = false // the address itself is stored somewhere
+						} else if after[x.Block()] || (x.Block() == mc.Block() && pos(x) > pos(mc)) {
+							good = false
 						}
 					case *ssa.MakeClosure:
 						if x.Fn != fn {
-							return false // shared with another closure: not analysed
+							good = false // shared with another closure: not analysed
 						}
+					case *ssa.UnOp, *ssa.DebugRef:
+					default:
+						good = false
 					}
 				}
 			}
-			ok = stores <= 1
+			ok = good
 		}
 	}
 	return ok
